@@ -145,8 +145,8 @@ public:
 
     vector_iterator& operator--() {
         __TBB_ASSERT(my_index > 0, "operator--() applied to iterator already at beginning of concurrent_vector");
-        --my_index;
         if (my_item != nullptr) {
+            // Going down, the segment boundary is crossed when the current element is the first one of its segment
             if (vector_type::is_first_element_in_segment(my_index)) {
                 // If the iterator crosses a segment boundary, the pointer become invalid
                 // as possibly next segment is in another memory location
@@ -155,6 +155,7 @@ public:
                 --my_item;
             }
         }
+        --my_index;
         return *this;
     }
 
